@@ -1,7 +1,10 @@
 package drv
 
 import (
+	"fmt"
 	"io/fs"
+
+	"github.com/avfs/avfs"
 	"sort"
 	"strings"
 )
@@ -49,7 +52,7 @@ func (s *Session) Project(names []string) (snap Snapshot) {
 			rd = "/"
 		}
 
-		des, err := s.FS.ReadDir(rd)
+		des, err := s.base().ReadDir(rd)
 		if dir == "" && s.NoRootList {
 			des, err = s.probeRoot(names)
 		}
@@ -78,7 +81,7 @@ func (s *Session) Project(names []string) (snap Snapshot) {
 				continue
 			}
 
-			if _, err := s.FS.Lstat(dir + "/" + n); err == nil {
+			if _, err := s.base().Lstat(dir + "/" + n); err == nil {
 				snap.Post = append(snap.Post, Entry{P: append(append([]string{}, parts...), s.abstractName(n)), K: "HIDDEN", D: []int{}, T: Path{Parts: []string{}}, Same: [][]string{}})
 			}
 		}
@@ -90,7 +93,7 @@ func (s *Session) Project(names []string) (snap Snapshot) {
 
 			e := Entry{P: cp, D: []int{}, T: Path{Parts: []string{}}, Same: [][]string{}}
 
-			fi, err := s.FS.Lstat(full)
+			fi, err := s.base().Lstat(full)
 			if err != nil {
 				e.K = "GHOST"
 				snap.Post = append(snap.Post, e)
@@ -107,7 +110,7 @@ func (s *Session) Project(names []string) (snap Snapshot) {
 
 			switch in.K {
 			case "file":
-				b, err := s.FS.ReadFile(full)
+				b, err := s.base().ReadFile(full)
 				if err != nil {
 					e.K = "READFILE-" + ErrName(err)
 				}
@@ -119,7 +122,7 @@ func (s *Session) Project(names []string) (snap Snapshot) {
 
 				files = append(files, finfo{idx: len(snap.Post), fi: fi})
 			case "link":
-				t, err := s.FS.Readlink(full)
+				t, err := s.base().Readlink(full)
 				if err != nil {
 					e.K = "READLINK-" + ErrName(err)
 				}
@@ -148,7 +151,7 @@ func (s *Session) Project(names []string) (snap Snapshot) {
 		var same [][]string
 
 		for j := range files {
-			if s.FS.SameFile(files[i].fi, files[j].fi) {
+			if s.base().SameFile(files[i].fi, files[j].fi) {
 				same = append(same, snap.Post[files[j].idx].P)
 			}
 		}
@@ -209,12 +212,60 @@ func (s *Session) probeRoot(names []string) ([]fs.DirEntry, error) {
 			continue
 		}
 
-		if fi, err := s.FS.Lstat("/" + n); err == nil {
+		if fi, err := s.base().Lstat("/" + n); err == nil {
 			des = append(des, probedEntry{fi})
 		}
 	}
 
 	return des, nil
+}
+
+func (s *Session) base() avfs.VFS {
+	if s.Base != nil {
+		return s.Base
+	}
+
+	return s.FS
+}
+
+// MtimeDigest summarises every modification time of the base tree.
+func (s *Session) MtimeDigest() string {
+	h := uint64(14695981039346656037)
+
+	var walk func(dir string, depth int)
+
+	walk = func(dir string, depth int) {
+		rd := dir
+		if rd == "" {
+			rd = "/" + WorkDir
+		}
+
+		fi, err := s.base().Lstat(rd)
+		if err != nil {
+			return
+		}
+
+		for _, b := range []byte(rd + fi.ModTime().String()) {
+			h = (h ^ uint64(b)) * 1099511628211
+		}
+
+		if !fi.IsDir() || depth > maxDepth {
+			return
+		}
+
+		des, err := s.base().ReadDir(rd)
+		if err != nil {
+			return
+		}
+
+		for _, de := range des {
+			walk(rd+"/"+de.Name(), depth+1)
+		}
+	}
+
+	walk("", 0)
+
+	return fmt.Sprintf("%x", h)
 }
 
 // EqualPost compares two projections.
